@@ -6858,6 +6858,16 @@ MHD_connection_handle_write (struct MHD_Connection *connection)
         /* mutex was already unlocked by try_ready_normal_body */
         return;
       }
+      if (connection->suspended)
+      { /* The content reader suspended the connection: no socket I/O
+           until it is resumed, the data block is kept in the response
+           buffer and is sent after the resume. */
+#if defined(MHD_USE_POSIX_THREADS) || defined(MHD_USE_W32_THREADS)
+        if (NULL != response->crc)
+          MHD_mutex_unlock_chk_ (&response->mutex);
+#endif
+        return;
+      }
 #if defined(_MHD_HAVE_SENDFILE)
       if (MHD_resp_sender_sendfile == connection->rp.resp_sender)
       {
